@@ -31,3 +31,61 @@ MANIFEST = dict(
     text='TLC enumerates every forest / root list / depth window within the bound (MC_C01); each scenario is replayed in bfs and dfs mode against the real binary and every recorded behaviour is validated by the TLA+ trace judge Judge_C01 (exact set, no duplicate, bfs level-monotone, dfs subtree-contiguous, all from World.tla). The walker mechanism (Walker.tla, one action per loop iteration of visit_dir) is model-checked against the same Prop definitions for every readdir order, with termination.',
     note="Trusted: TLC, World.tla, the driver's materialisation, lstat inode numbers as row identity. Bounded: forests of <= 4 nodes over {dir,file,symlink,fifo} and <= 5 nodes over {dir,file}; windows 0..depth+2; quick samples 24 000 of the 153 000 scenarios, thorough runs all.",
     technique='TLC scenario enumeration + replay into the binary + TLA+ trace judge; TLC model checking of the Walker mechanism')
+
+
+def _trace_conformance(ctx, tier, seed):
+    """White-box trace validation: the real visit_dir (hooks on) logs one event per Walker action; Trace_Walker replays
+    every recorded run through the Walker actions (implementation -> specification)."""
+    import json
+    import os
+    import random
+    import time
+    from driver import lib, check
+    t0 = time.time()
+    r = lib.run_tlc("MC_C01", "MC_C01_q1", workers=4)
+    lib.tlc_ok(r, "MC_C01")
+    scs = r.replays
+    random.Random(seed + 1).shuffle(scs)
+    scs = scs[:300 if tier == "quick" else 3000]
+    recs = []
+    for k, scn in enumerate(scs):
+        w, snap = ctx.world(scn["world"], None)
+        for run in scn["runs"]:
+            tf = os.path.join(ctx.scratch, "trace.%d.%s" % (k, run["tag"]))
+            argv = [check.subst(a, w) for a in run["argv"]]
+            lib.run_fselect(argv, w.paths[0], w.home, extra_env={"FSELECT_VERIF_TRACE": tf})
+            events = [json.loads(x) for x in open(tf)] if os.path.exists(tf) else []
+            recs.append({"id": len(recs) + 1, "world": scn["world"], "roots": scn["roots"], "min": scn["min"], "max": scn["max"],
+                         "dfs": run["tag"] == "dfs", "limit": 0, "snapshot": snap, "rootino": str(os.stat(w.paths[0]).st_ino),
+                         "events": [{"ev": e["ev"], "ino": e.get("ino", ""), "reported": e.get("reported", False),
+                                     "descend": e.get("descend", "")} for e in events], "argv": argv})
+    shards = 8
+    ok = 0
+    drift = []
+    states = 0
+
+    def one(i):
+        part = recs[i::shards]
+        if not part:
+            return [], 0, None
+        fn = os.path.join(ctx.scratch, "traces.%d.ndjson" % i)
+        with open(fn, "w") as f:
+            for rec in part:
+                f.write(json.dumps(rec) + "\n")
+        tr = lib.run_tlc("Trace_Walker", workers=1, env={"TRACES": fn}, tags=("TRACEOK",), xmx="3g", deadlock=False)
+        if tr.rc not in (0,) or tr.violated:
+            return tr.lines["TRACEOK"], tr.distinct, "TLC: %s" % (tr.violated or tr.out[-300:])
+        return tr.lines["TRACEOK"], tr.distinct, None
+    for i, (oks, st, err) in enumerate(lib.pmap(one, range(shards), workers=shards)):
+        part = recs[i::shards]
+        ok += len(oks)
+        states += st
+        if err or len(oks) < len(part):
+            first = part[len(oks)] if len(oks) < len(part) else part[-1]
+            drift.append("trace rejected after %d accepted runs in shard %d: argv=%s %s" % (len(oks), i, json.dumps(first["argv"])[:160], err or ""))
+    return {"name": "Walker", "kind": "trace-validation", "module": "Trace_Walker", "states": states, "validated": ok,
+            "rejected": len(recs) - ok, "events": sum(len(x["events"]) for x in recs), "drift": drift, "wall_s": round(time.time() - t0, 1)}
+
+
+def conformance(tier, seed):
+    return [dict(name="Walker", run=_trace_conformance)]
